@@ -7,6 +7,8 @@ package main
 import (
 	"errors"
 	"fmt"
+	"io"
+	"path/filepath"
 	"runtime"
 	"sort"
 	"strconv"
@@ -82,6 +84,8 @@ func (v GVal) Go() any {
 		return slog.Level(v.I)
 	case "error":
 		return errors.New(v.S)
+	case "fmterr": // testing-mode dump corpus only: an error type with its own Format method (as pkg/errors-style errors have)
+		return fmtErr{v.S}
 	case "stackerr": // history records only (never a probe, never sent to the model): an errors.v3 error that carries its stack
 		return errorsv3.New(v.S)
 	case "bool":
@@ -331,6 +335,17 @@ func attrsGo(as []GAttr) slog.Attrs {
 	return out
 }
 
+// fmtErr: an error that implements fmt.Formatter; %+v prints the text and a second line
+type fmtErr struct{ s string }
+
+func (e fmtErr) Error() string { return e.s }
+func (e fmtErr) Format(f fmt.State, verb rune) {
+	_, _ = io.WriteString(f, e.s)
+	if verb == 'v' && f.Flag('+') {
+		_, _ = io.WriteString(f, "\n\tat some.Function (file.go:12)")
+	}
+}
+
 // typedAttr: every other attribute (by key length) is made with the typed constructor of its kind
 // (slog.Int8, slog.Uint16, slog.Float32, slog.Duration, ... / the generic slog.Numeric), the others with NewAttr / Any
 func typedAttr(key string, v GVal) slog.Attr {
@@ -578,6 +593,7 @@ type callerInfo struct {
 	File string // after slog.Safety
 	Line int
 	Func string
+	Raw  string // the file as the runtime reports it
 }
 
 //go:noinline
@@ -585,7 +601,7 @@ func pcHere() callerInfo {
 	var pcs [1]uintptr
 	runtime.Callers(2, pcs[:])
 	fr, _ := runtime.CallersFrames(pcs[:]).Next()
-	return callerInfo{pcs[0], slog.Safety(fr.File), fr.Line, fr.Function}
+	return callerInfo{pcs[0], slog.Safety(fr.File), fr.Line, fr.Function, fr.File}
 }
 
 var encCaller = pcHere()
@@ -686,6 +702,23 @@ func (rec EncRec) warmUp() {
 	lvl := []slog.Level{slog.TraceLevel, slog.ErrorLevel, slog.OKLevel, slog.Level(fgBgLevel)}[h%4]
 	w.WriteThru(nil, lvl, fixedTime, encCaller.PC, "warm-up\nsecond line\n",
 		slog.Attrs{slog.Group("wg", slog.Int("a", 1), slog.Group("inner", slog.String("s", "x"))), slog.NewAttr("err", fmt.Errorf("warm-up error")), slog.String("z", "last")})
+}
+
+// withNastyPathMapping runs f while the directory of the caller's file is mapped to a replacement that holds a
+// quote and backslashes (a known-path mapping registered earlier in the program): the caller
+// field then carries that text and must be escaped like any other string
+func withNastyPathMapping(f func()) {
+	dir := filepath.Dir(encCaller.Raw)
+	old, flags := encCaller, slog.GetFlags()
+	slog.AddKnownPathMapping(dir, "C:\\Users\\\"dev\"\\src")
+	slog.AddFlags(slog.Lprivacypath)
+	encCaller.File = slog.Safety(encCaller.Raw)
+	defer func() {
+		slog.RemoveKnownPathMapping(dir)
+		slog.SetFlags(flags)
+		encCaller = old
+	}()
+	f()
 }
 
 const tsText = "13:14:15.123456Z" // fixedTime in the default layout (Ltime|Lmicroseconds), UTC mode
